@@ -46,7 +46,24 @@ type OriginResp struct {
 	ReadSizes     []int // body handed out in reads of these sizes (then the rest)
 	TrackFetch    bool  // count this answer in the performer's fetch log
 	CountOnly     bool  // …but not as in flight (uncacheable answers are outside the single-flight claim)
+	StallBody     bool  // the body never ends: Read blocks until the body is closed
 }
+
+// stallBody: headers arrive, the body never does.
+type stallBody struct {
+	ch   chan struct{}
+	once sync.Once
+}
+
+func (s *stallBody) Read(b []byte) (int, error) {
+	select {
+	case <-s.ch:
+		return 0, io.ErrUnexpectedEOF
+	case <-time.After(30 * time.Second):
+		return 0, io.ErrUnexpectedEOF
+	}
+}
+func (s *stallBody) Close() error { s.once.Do(func() { close(s.ch) }); return nil }
 
 // chunkReader hands the body out in the scripted read sizes (each Read = one Write of writeBody).
 type chunkReader struct {
@@ -197,6 +214,8 @@ func (p *Performer) Do(req *http.Request) (*http.Response, error) {
 	}
 	if req.Method == "HEAD" {
 		resp.Body = http.NoBody
+	} else if r.StallBody {
+		resp.Body = &stallBody{ch: make(chan struct{})}
 	} else if r.ReadErrAt >= 0 && r.ReadErrAt < len(r.Body) {
 		resp.Body = &errReader{data: r.Body, at: r.ReadErrAt}
 	} else if len(r.ReadSizes) > 0 {
